@@ -276,7 +276,9 @@ func c12(c *hx.Ctx) {
 			mu.d ^= 1
 		}
 		ct2 := mu.apply(ct)
+		ct2orig := append([]byte{}, ct2...)
 		o := decrypt(keys[kD].priv, ctxD, ct2)
+		checkPure(c, keys[kD].priv, ctxD, ct2, ct2orig, o)
 		same := o.err == nil && bytes.Equal(o.out, e.msg)
 		changed := !bytes.Equal(ct, ct2)
 		desc := map[string]any{"kind": "enc", "key": e.k, "ctx": e.ctx, "msg": hx.Hex(trunc(e.msg)), "msg_len": len(e.msg),
@@ -411,13 +413,31 @@ func c12(c *hx.Ctx) {
 				continue
 			}
 		}
+		ct2orig := append([]byte{}, ct2...)
 		o := decrypt(keys[e.k].priv, e.ctx, ct2)
+		checkPure(c, keys[e.k].priv, e.ctx, ct2, ct2orig, o)
 		c.Eval()
 		if o.panicked {
 			c.Failf("decrypt-panic", map[string]any{"key": e.k, "ctx": e.ctx, "ct": hx.Hex(ct2)}, "DecryptWithPrivKey panicked: %v", o.err)
 		} else if o.err == nil && !bytes.Equal(ct, ct2) {
 			c.Failf("mutated-ciphertext-accepted", map[string]any{"key": e.k, "ctx": e.ctx, "ct": hx.Hex(ct2)}, "a modified/random ciphertext decrypted without error")
 		}
+	}
+}
+
+// checkPure: decryption is a function of (key, context, ciphertext bytes): it
+// must not modify the caller's ciphertext and must give the same answer again.
+func checkPure(c *hx.Ctx, priv crypto.PrivKey, ctx string, ct, orig []byte, first obs) {
+	in := map[string]any{"ctx": ctx, "ct": hx.Hex(trunc(orig)), "ct_len": len(orig)}
+	if !bytes.Equal(ct, orig) {
+		c.Failf("decrypt-modifies-ciphertext", in, "DecryptWithPrivKey changed the caller's ciphertext buffer")
+	}
+	second := decrypt(priv, ctx, ct)
+	if (first.err == nil) != (second.err == nil) || (first.err == nil && !bytes.Equal(first.out, second.out)) {
+		c.Failf("decrypt-not-repeatable", in, "decrypting the same buffer twice gave different results: first err=%v, second err=%v", first.err, second.err)
+	}
+	if third := decrypt(priv, ctx, append([]byte{}, orig...)); (first.err == nil) != (third.err == nil) {
+		c.Failf("decrypt-not-repeatable", in, "decrypting a copy of the original bytes gave a different result: first err=%v, copy err=%v", first.err, third.err)
 	}
 }
 
@@ -608,6 +628,7 @@ func c26(c *hx.Ctx) {
 			_ = j
 		}
 	}
+	c26Links(c)
 	nRole := c.N - nSig
 	for i := 0; i < nRole; i++ {
 		a := uni[c.Rng.Intn(len(uni))]
